@@ -389,8 +389,58 @@ def run_case(ctx, rng, idx):
     for _ in range(2):
         run_layout(ctx, rng, idx)
     run_convert(ctx, rng, idx)
+    run_extra_targets(ctx, rng)
     if idx < 1:
         ctx.sample({"legs": ["grammar types x input container variants", "name_mapping layouts with extras", "converters"], "oracles": ["argument snapshot", "repeat equality", "id-graph disjointness", "mutation of result 1"]})
+
+
+def run_extra_targets(ctx, rng):  # noqa: C901
+    """Several extra_out targets (and several extra_in targets): the dumper merges the mappings held by the object into its result, the
+    loader hands the collected mapping to several fields - without writing into the object's own mappings and without handing ONE
+    mapping to two fields (seeded change: extra_stack[0].update(...) wrote the other targets' items into the argument)."""
+    import typing  # noqa: PLC0415
+    from dataclasses import field as dcf, make_dataclass  # noqa: PLC0415
+
+    from adaptix import Retort, name_mapping  # noqa: PLC0415
+
+    n_targets = rng.choice([2, 2, 3])
+    targets = ["attrs", "labels", "more"][:n_targets]
+    val_type = rng.choice([typing.Any, typing.Dict[str, typing.Any], dict, typing.Mapping[str, typing.Any]])
+    kind = rng.choice(["typeddict-total-false", "typeddict", "dataclass"])
+    if kind == "dataclass":
+        cls = make_dataclass("XT", [("id", int), ("note", typing.Optional[str], dcf(default=None)), *[(t, val_type, dcf(default_factory=dict)) for t in targets]])
+    else:
+        cls = typing.TypedDict("XT", {"id": int, "note": typing.NotRequired[str], **{t: val_type for t in targets}}, total=kind == "typeddict")
+
+    def make_obj():
+        ext = {t: {f"{t}_{j}": [j, {"deep": j}] for j in range(rng.randint(0, 2))} for t in targets}
+        if kind == "dataclass":
+            return cls(7, None, *[ext[t] for t in targets])
+        return {"id": 7, **ext}
+    state = rng.getstate()
+    obj = make_obj()
+    for dt in DebugTrail:
+        r = Retort(recipe=[name_mapping(cls, extra_out=targets, extra_in=targets[0])], debug_trail=dt)
+        before = freeze(obj)
+        d1 = attempt(r.dump, obj, cls)
+        mid = freeze(obj)
+        d2 = attempt(r.dump, obj, cls)
+        ctx.evaluated(("extra-targets", kind, n_targets, repr(val_type)[:30], dt.name, repr(before)[:120]), nontrivial=True)
+        ctx.count("extra_target_dumps")
+        ctx.count("dump_call_pairs")
+        desc = {"kind": kind, "targets": targets, "value_type": repr(val_type), "mode": dt.name, "object": repr(obj)[:300]}
+        if mid != before or freeze(obj) != before:
+            ctx.violation("argument-mutated:dump:extra_out-targets", f"dump with extra_out={targets} changed its argument: before {before!r:.200}, after {freeze(obj)!r:.200}", desc)
+            rng.setstate(state)
+            obj = make_obj()
+            continue
+        if d1.kind != "ok" or d2.kind != "ok" or not strict_eq(d1.value, d2.value):
+            ctx.violation("repeat-differs:dump:extra_out-targets", f"two dumps of one object with extra_out={targets}: {d1!r:.150} / {d2!r:.150}", desc)
+            continue
+        holders = [obj] if kind != "dataclass" else []
+        holders += [(obj[t] if kind != "dataclass" else getattr(obj, t)) for t in targets]
+        if any(d1.value is h or d2.value is h for h in holders) or d1.value is d2.value:
+            ctx.violation("results-share-container:dump:extra_out-targets", f"the dumped mapping IS one of the argument's mappings (or the previous result): extra_out={targets}", desc)
 
 
 def _witness_defaultdict(ctx):
